@@ -422,9 +422,21 @@ cfgLoop:
 	return cfg, nil
 }
 
+// maxTimeS is the last second of year 9999. Times beyond it overflow in later calculations.
+const maxTimeS = 253402300799
+
 func verifyAndFillConfig(cfg *ResponseConfig, nowMS int) error {
 	if nowMS < 0 {
 		return fmt.Errorf("nowMS must be >= 0")
+	}
+	if nowMS > maxTimeS*1000 {
+		return fmt.Errorf("nowMS must be before year 10000")
+	}
+	if cfg.StartTimeS < -maxTimeS || cfg.StartTimeS > maxTimeS {
+		return fmt.Errorf("start time %d is out of range", cfg.StartTimeS)
+	}
+	if cfg.StopTimeS != nil && (*cfg.StopTimeS < -maxTimeS || *cfg.StopTimeS > maxTimeS) {
+		return fmt.Errorf("stop time %d is out of range", *cfg.StopTimeS)
 	}
 	if cfg.StopTimeS != nil && *cfg.StopTimeS < cfg.StartTimeS {
 		return fmt.Errorf("stop time %d is before start time %d", *cfg.StopTimeS, cfg.StartTimeS)
